@@ -365,3 +365,35 @@ Example C04_solver_complete_nonvacuous :
   solve3 (fun i j => if (i =? j)%Z then zq 2 else zq 0) (fun i => zq (2 * i)) = Ok (zq 0, zq 1, zq 2)
   /\ solve3 (fun i j => zq 1) (fun i => zq 1) = Err ValueError.
 Proof. exact ex_solve3. Qed.
+
+(* (e) for segmented planes, over the reals, segment by segment: [mk] one segment's mask with recorded coefficients [t]
+   (what lstsq returned for that segment's masked basis), the masks being 0/1 and disjoint on the grid.  If the segment's
+   masked basis is independent: t is the unique solution; the NEW whole-plane OPD has least-squares coefficients
+   (t0, 0, 0) on that segment - its piston kept, its tip/tilt removed exactly; and new OPD + ramp of the recorded
+   Tilt(x=t1, y=t2) = old OPD on the segment *)
+Theorem C04_fit_segmented_lsq :
+  forall (dxr dxc : R) (opd : arr RS) (masks : list (arr RS)) (ts : list (R * R * R)) l1 l2 mk (t : R * R * R),
+  let m := nr opd in let n := nc opd in
+  let b := ptt_masked (S := RS) m n dxr dxc mk in
+  combine masks ts = l1 ++ (mk, t) :: l2 ->
+  (forall i j, (0 <= i < m)%Z -> (0 <= j < n)%Z ->
+     get mk i j = 0%R \/ (get mk i j = 1%R /\ forall mt, In mt (l1 ++ l2) -> get (fst mt) i j = 0%R)) ->
+  (forall d : Z -> R, (forall i j, (0 <= i < m)%Z -> (0 <= j < n)%Z -> lin (S := RS) 3 b d i j = 0%R) ->
+                      forall k, (0 <= k < 3)%Z -> d k = 0%R) ->
+  NE (S := RS) m n 3 b (cof t) (get opd) ->
+  (forall t', NE (S := RS) m n 3 b (cof t') (get opd) -> t' = t)
+  /\ (forall t', NE (S := RS) m n 3 b (cof t') (get (fit_seg (S := RS) dxr dxc masks opd ts)) -> t' = (fst (fst t), 0%R, 0%R))
+  /\ (forall i j, (0 <= i < m)%Z -> (0 <= j < n)%Z -> get mk i j = 1%R ->
+        (get (fit_seg (S := RS) dxr dxc masks opd ts) i j
+         + ramp_s (S := RS) (snd (fst t)) (snd t) dxr dxc (i - m / 2) (j - n / 2))%R = get opd i j).
+Proof. exact fit_seg_lsq. Qed.
+Print Assumptions C04_fit_segmented_lsq.
+Example C04_fit_segmented_lsq_nonvacuous :
+  forall tA tB : R * R * R,
+  (forall d : Z -> R,
+     (forall i j, (0 <= i < 2)%Z -> (0 <= j < 4)%Z -> lin (S := RS) 3 (ptt_masked (S := RS) 2 4 1%R 1%R ex_maskA) d i j = 0%R) ->
+     forall k, (0 <= k < 3)%Z -> d k = 0%R)
+  /\ (forall i j, (0 <= i < 2)%Z -> (0 <= j < 4)%Z ->
+        get ex_maskA i j = 0%R \/ (get ex_maskA i j = 1%R /\ forall mt, In mt ([] ++ [(ex_maskB, tB)]) -> get (fst mt) i j = 0%R))
+  /\ combine [ex_maskA; ex_maskB] [tA; tB] = [] ++ (ex_maskA, tA) :: [(ex_maskB, tB)].
+Proof. exact ex_seg_hypotheses. Qed.
